@@ -596,22 +596,79 @@ _KEYWORDS = set('let mut if else while loop for in match return break continue f
 
 
 def _fn_spans(lines):
-    """[(lo, hi)] index ranges of the functions of a transformed file (header line .. closing brace at the header's indentation)"""
+    """[(lo, hi)] index ranges of the functions of a transformed file (header line .. closing brace at the header's indentation;
+    a declaration without body ends at its `;`)"""
     spans = []
     i, n = 0, len(lines)
     while i < n:
         t = lines[i][0]
-        m = re.match(r'^(\s*)(?:pub(?:\([a-z]+\))? )?(?:unsafe )?fn \w+', t)
+        m = re.match(r'^(\s*)(?:pub(?:\([a-z]+\))? )?(?:const )?(?:unsafe )?fn \w+', t)
         if m:
             ind = m.group(1)
-            j = i + 1
-            while j < n and lines[j][0] != ind + '}':
+            j = i
+            end = None
+            while j < n:
+                tj = lines[j][0].rstrip()
+                if tj.endswith('}') and '{' in tj and j == i:
+                    end = j          # one-line function
+                    break
+                if tj == ind + '{' or (tj.endswith('{') and j == i):
+                    k = j + 1
+                    while k < n and lines[k][0].rstrip() != ind + '}':
+                        k += 1
+                    end = min(k, n - 1)
+                    break
+                if tj.endswith(';'):
+                    end = j          # declaration without body
+                    break
                 j += 1
-            spans.append((i, min(j, n - 1)))
-            i = j + 1
+            if end is None:
+                end = n - 1
+            spans.append((i, end))
+            i = end + 1
             continue
         i += 1
     return spans
+
+
+def _fn_name(header):
+    m = re.search(r'\bfn (\w+)', header)
+    return m.group(1) if m else None
+
+
+def _function_plan(base, cur):
+    """pairs the functions of the base text with those of the current text: by name (k-th occurrence with k-th occurrence), a
+    renamed function by the similarity of its body.  -> [(lo, hi, clo, chi)] or None (no function-level plan: names ambiguous)"""
+    sb, sc = _fn_spans(base), _fn_spans(cur)
+    nb, nc = {}, {}
+    for sp in sb:
+        nb.setdefault(_fn_name(base[sp[0]][0]), []).append(sp)
+    for sp in sc:
+        nc.setdefault(_fn_name(cur[sp[0]][0]), []).append(sp)
+    pairs, only_b, only_c = [], [], []
+    for name, lst in nb.items():
+        other = nc.get(name, [])
+        if other and len(other) != len(lst):
+            return None
+        if other:
+            pairs += [(x[0], x[1], y[0], y[1]) for x, y in zip(lst, other)]
+        else:
+            only_b += lst
+    for name, lst in nc.items():
+        if name not in nb:
+            only_c += lst
+    # renamed functions
+    def text(lines, sp):
+        return '\n'.join(t.strip() for t, _ in lines[sp[0] + 1:sp[1] + 1])
+    for x in list(only_b):
+        best = [(difflib.SequenceMatcher(a=text(base, x), b=text(cur, y), autojunk=False).ratio(), y) for y in only_c]
+        best = sorted([z for z in best if z[0] >= 0.6], reverse=True)
+        if len(best) == 1 or (len(best) > 1 and best[0][0] - best[1][0] > 0.15):
+            y = best[0][1]
+            pairs.append((x[0], x[1], y[0], y[1]))
+            only_b.remove(x)
+            only_c.remove(y)
+    return sorted(pairs)
 
 
 def local_renames(base, cur, bmap):
@@ -648,50 +705,70 @@ def local_renames(base, cur, bmap):
 
 
 def _line_map(base, cur):
-    """base idx -> ('eq'|'mod', cur idx); vanished base idx -> cur idx after which its annotations go (-1: file head);
-    lines that moved inside the file (identical text, unmatched on both sides, unique) are mapped as 'eq'"""
+    """base idx -> ('eq'|'mod', cur idx); vanished base idx -> cur idx after which its annotations go (-1: file head).
+    Functions are aligned with each other first (so a function that moved inside the file, or was renamed, is compared with
+    itself), the text outside functions is aligned as one sequence; lines that moved inside a function (identical or
+    near-identical text, unmatched on both sides, unique) are mapped too."""
     bs = [t.strip() for t, _ in base]
     cs = [t.strip() for t, _ in cur]
-    sm = difflib.SequenceMatcher(a=bs, b=cs, autojunk=False)
     bmap, anchor = {}, {}
     changed = 0
     free_b, free_c = [], []
-    for tag, i1, i2, j1, j2 in sm.get_opcodes():
-        if tag == 'equal':
-            for d in range(i2 - i1):
-                bmap[i1 + d] = ('eq', j1 + d)
-        elif tag == 'replace' and (i2 - i1) == (j2 - j1):
-            for d in range(i2 - i1):
-                bmap[i1 + d] = ('mod', j1 + d)
-            changed += i2 - i1
-        else:
-            changed += max(i2 - i1, j2 - j1)
-            # lines replaced by a different number of lines: pair, in order, the lines that are near-identical (a trailing
-            # comma, one token); the rest vanished / are new
-            paired = {}
-            jn = j1
-            for bi in range(i1, i2):
-                for cj in range(jn, j2):
-                    if len(bs[bi]) >= 8 and difflib.SequenceMatcher(a=bs[bi], b=cs[cj], autojunk=False).ratio() >= 0.85:
-                        paired[bi] = cj
-                        jn = cj + 1
-                        break
-            for bi in range(i1, i2):
-                if bi in paired:
-                    bmap[bi] = ('mod', paired[bi])
-                    continue
-                # annotation lines that followed a vanished line go after the text that replaced it
-                anchor[bi] = j2 - 1
-                free_b.append(bi)
-            free_c.extend(c for c in range(j1, j2) if c not in paired.values())
+
+    def diff_segment(bi_list, ci_list):
+        nonlocal changed
+        head_anchor = (ci_list[0] - 1) if ci_list else -1
+        sm = difflib.SequenceMatcher(a=[bs[i] for i in bi_list], b=[cs[j] for j in ci_list], autojunk=False)
+        for tag, i1, i2, j1, j2 in sm.get_opcodes():
+            if tag == 'equal':
+                for d in range(i2 - i1):
+                    bmap[bi_list[i1 + d]] = ('eq', ci_list[j1 + d])
+            elif tag == 'replace' and (i2 - i1) == (j2 - j1):
+                for d in range(i2 - i1):
+                    bmap[bi_list[i1 + d]] = ('mod', ci_list[j1 + d])
+                changed += i2 - i1
+            else:
+                changed += max(i2 - i1, j2 - j1)
+                # lines replaced by a different number of lines: pair, in order, the lines that are near-identical (a trailing
+                # comma, one token); the rest vanished / are new
+                paired = {}
+                jn = j1
+                for x in range(i1, i2):
+                    for y in range(jn, j2):
+                        if len(bs[bi_list[x]]) >= 8 and difflib.SequenceMatcher(a=bs[bi_list[x]], b=cs[ci_list[y]], autojunk=False).ratio() >= 0.85:
+                            paired[x] = y
+                            jn = y + 1
+                            break
+                for x in range(i1, i2):
+                    if x in paired:
+                        bmap[bi_list[x]] = ('mod', ci_list[paired[x]])
+                        continue
+                    # annotation lines that followed a vanished line go after the text that replaced it
+                    anchor[bi_list[x]] = ci_list[j2 - 1] if j2 > 0 else head_anchor
+                    free_b.append(bi_list[x])
+                free_c.extend(ci_list[y] for y in range(j1, j2) if y not in paired.values())
+
+    plan = _function_plan(base, cur)
+    if plan is None:
+        diff_segment(list(range(len(bs))), list(range(len(cs))))
+        fn_pairs = []
+        for lo, hi in _fn_spans(base):
+            imgs = [bmap[b][1] for b in range(lo, hi + 1) if b in bmap]
+            if imgs:
+                fn_pairs.append((lo, hi, min(imgs), max(imgs)))
+    else:
+        in_b, in_c = set(), set()
+        for lo, hi, clo, chi in plan:
+            in_b.update(range(lo, hi + 1))
+            in_c.update(range(clo, chi + 1))
+        diff_segment([i for i in range(len(bs)) if i not in in_b], [j for j in range(len(cs)) if j not in in_c])
+        for lo, hi, clo, chi in plan:
+            diff_segment(list(range(lo, hi + 1)), list(range(clo, chi + 1)))
+        fn_pairs = plan
     # moved lines: inside one function, a vanished line whose text reappears exactly once among the new lines of that function
     moved = 0
     free_cs = set(free_c)
-    for lo, hi in _fn_spans(base):
-        imgs = [bmap[b][1] for b in range(lo, hi + 1) if b in bmap]
-        if not imgs:
-            continue
-        clo, chi = min(imgs), max(imgs)
+    for lo, hi, clo, chi in fn_pairs:
         fb = [b for b in free_b if lo <= b <= hi]
         fc = [c for c in range(clo, chi + 1) if c in free_cs]
         by_text_b, by_text_c = {}, {}
